@@ -34,7 +34,7 @@ OPS = ["or", "and", "sub", "xor", "inv"]
 
 
 def budget(tier):
-    return 144 if tier == "quick" else 3000
+    return 144 if tier == "quick" else 1200
 
 
 def transform(shape, s, theta, dx, dy):
